@@ -37,6 +37,18 @@
   'assumptions':['as c04_link_ltr'],
   'claims':'Segment::linkClusters(first, last), right-to-left: following the sibling link from the LAST base of the stream visits every base exactly once, in reverse stream order, and ends with NULL at the first base; no parent or child link and no sibling link of an attached slot is written, slots outside the stream are untouched'}@*/
 
+/*@unit {'name':'c19_seg_destroy_b1', 'props':['DEV_seglife'], 'final_props':['C19','C02','C16'], 'entry':'h_destroy', 'kind':'bounded', 'unwind':5, 'defines':['DTOR','BUF=1','KS=2','KJ=2','NUSER=1'], 'checks':['--memory-leak-check'],
+  'bound':'slot blocks of 1 slot with 1 user attribute; 0..2 newSlot calls and 0..2 newJustify calls (each allocates a block, so each rope grows to 2 entries through one reallocation); 1 justification level; 2 char-infos; with or without a collision array; every calloc may fail',
+  'assumptions':['realloc(p, n) is malloc(n) + copy of the old elements + free(p), or NULL (Vector::reserve then aborts)',
+                 'delete-expressions are modelled by spec code: `delete p` = destructor body, then the destructors of the rope members (extracted ~Vector), then operator delete = free (CLASS_NEW_DELETE); `delete[] m_charinfo` = free (CharInfo has a trivial destructor, no array cookie)',
+                 'the member m_feats (Vector<Features>) is not modelled: its release is not covered here',
+                 'the segment is in the state its constructor leaves: empty ropes, empty free lists (the constructor itself is not extracted)'],
+  'claims':'gr_seg_destroy after any admissible history of Segment::newSlot / Segment::newJustify calls (real bodies, real Vector<T*>::push_back / reserve): every block those calls obtained and kept (slot blocks, attribute blocks, justify blocks), every rope buffer, the char-info array, the collision array and the segment itself are freed exactly once; nothing the segment does not own (face, silf) is freed; blocks of a failed newSlot are freed on the spot; no allocation is left (memory-leak check) and nothing is freed twice'}@*/
+/*@unit {'name':'c19_seg_destroy_b2', 'props':['DEV_seglife'], 'final_props':['C19','C02','C16'], 'entry':'h_destroy', 'kind':'bounded', 'unwind':5, 'defines':['DTOR','BUF=2','KS=3','KJ=3','NUSER=0'], 'checks':['--memory-leak-check'],
+  'bound':'slot blocks of 2 slots without user attributes; 0..3 newSlot calls and 0..3 newJustify calls (the third one allocates the second block after the free list ran empty); 1 justification level; 2 char-infos; with or without a collision array; every calloc may fail',
+  'assumptions':['as c19_seg_destroy_b1'],
+  'claims':'as c19_seg_destroy_b1 for blocks of two slots: the free-list pops between the two block allocations do not disturb the ropes; all blocks are freed exactly once by gr_seg_destroy'}@*/
+
 /*@unit {'name':'c03_api_slot', 'props':['DEV_seglife'], 'final_props':['C03','C04','C02'], 'entry':'h_api_slot', 'kind':'proof', 'unwind':3, 'defines':['API'],
   'claims':'the gr_slot_* observation points return exactly the slot fields the internal invariants speak about and write nothing: next/prev_in_segment = m_next/m_prev, attached_to = m_parent, first_attachment = m_child, next_sibling_attachment = m_sibling, index = m_index, before/after/original = m_before/m_after/m_original, gid = the real glyph id when non-zero else the glyph id, origin/advance (no font) = the stored floats, can_insert_before = !(flags & INSERTED)'}@*/
 /*@unit {'name':'c03_api_seg', 'props':['DEV_seglife'], 'final_props':['C03','C02'], 'entry':'h_api_seg', 'kind':'proof', 'unwind':3, 'defines':['API'],
@@ -187,11 +199,11 @@ static void link_case(const int w_n, const unsigned w_mask)
     Segment sg;
     sg.m_dir = (int8)((nondet_unsigned() & ~1u) | RTL);
     /* ... except: the stream is pool slot 0, 1, .., n-1 in this order; slot i is a base iff bit i of the mask is set; an attached slot
-       names one of two stream slots as its parent (linkClusters only ever asks isBase()) - see `assumptions' */
+       names the following stream slot as its parent (linkClusters only ever asks isBase()) - see `assumptions' */
     for (int i = 0; i < NSLOTS; ++i) if (i < w_n) {
         g_pool[i].m_next = (i + 1 < w_n) ? &g_pool[i + 1] : (Slot *)0; g_pool[i].m_prev = i ? &g_pool[i - 1] : (Slot *)0;
         if ((w_mask >> i) & 1) { g_pool[i].m_parent = (Slot *)0; g_pool[i].m_sibling = (Slot *)0; }            /* bases carry no sibling link yet */
-        else g_pool[i].m_parent = nondet_bool() ? &g_pool[(i + 1) % w_n] : &g_pool[0];
+        else g_pool[i].m_parent = &g_pool[(i + 1) % w_n];
     }
     sg.m_first = &g_pool[0]; sg.m_last = &g_pool[w_n - 1];
     int o0[NSLOTS], n0;
@@ -235,11 +247,157 @@ void h_linkq(void)
     CANARY();
 }
 #endif
-#if NSLOTS >= 5
-    if (w_n == 5) link_case(5);
-#endif
+
+/* ================================================================== (c) newSlot x k, newJustify x j, ~Segment, gr_seg_destroy */
+#ifdef DTOR
+typedef Segment gr_segment;
+struct SlotJustify {
+/*@extract {'if':'DTOR', 'kind':'members', 'file':'src/inc/Slot.h', 'scope': r'struct SlotJustify\s*\{', 'names':['next','values']}@*/
+};
+/*@extract {'if':'DTOR', 'file':'src/inc/Slot.h', 'scope': r'struct SlotJustify\s*\{', 'kind':'range', 'start': r'static const int NUMJUSTPARAMS', 'end': r';', 'end_inclusive': True}@*/
+struct Silf {
+/*@extract {'if':'DTOR', 'kind':'members', 'file':'src/inc/Silf.h', 'scope': r'class Silf\s*\{', 'names':['m_aUser','m_numJusts']}@*/
+};
+struct Face { int dummy; };
+/*@extract {'if':'DTOR', 'kind':'accessors', 'file':'src/inc/Silf.h', 'scope': r'class Silf\s*\{', 'prefix':'Silf',
+   'names':['numUser','numJustLevels'], 'fields':['m_aUser','m_numJusts']}@*/
+/*@extract {'if':'DTOR', 'file':'src/inc/Segment.h', 'kind':'define', 'name':'MAX_SEG_GROWTH_FACTOR'}@*/
+/* Vector<T*> for the three ropes (T* = void *: the ropes only store and free the pointers) */
+typedef void *vp_t;
+typedef struct VecP {
+/*@extract {'if':'DTOR', 'kind':'members', 'file':'src/inc/List.h', 'scope': r'class Vector\s*\{', 'names':['m_first','m_last','m_end'], 'subs':[[r'\bT\b', 'vp_t']]}@*/
+} VecP;
+typedef VecP SlotRope, AttributeRope, JustifyRope;
+typedef struct SlotCollision SlotCollision;
+/* the members of class Segment that the shim of slots.tc lacks (copied from the header); one segment per harness */
+struct SegExt {
+/*@extract {'if':'DTOR', 'kind':'members', 'file':'src/inc/Segment.h', 'scope': r'class Segment\s*\{', 'names':['m_slots','m_userAttrs','m_justifies','m_freeJustifies','m_collisions']}@*/
+} g_ext;
+
+/* ---- the ledger: every block the library obtains, and how often it hands it to free() */
+#define MAXB 16
+void *g_blk[MAXB]; int g_freecnt[MAXB]; int g_nblk;
+static void *ledger_add(void *p)
+{
+    if (p) { __CPROVER_assert(g_nblk < MAXB, "bound: the ledger holds every block of this unit"); __CPROVER_assume(g_nblk < MAXB); g_blk[g_nblk] = p; g_freecnt[g_nblk] = 0; g_nblk++; }
+    return p;
+}
+#define L1(k) if ((k) < g_nblk && g_blk[(k)] == p) idx = (k);
+static void free_g(void *p)
+{   /* free(), instrumented; the built-in obligations of free (double free, not a heap block) stay in force */
+    if (p) {
+        int idx = -1;
+        L1(0) L1(1) L1(2) L1(3) L1(4) L1(5) L1(6) L1(7) L1(8) L1(9) L1(10) L1(11) L1(12) L1(13) L1(14) L1(15)
+        __CPROVER_assert(idx >= 0, "only blocks the segment obtained (or was given to own) are freed: nothing else");
+        if (idx >= 0) g_freecnt[idx]++;
+    }
+    free(p);
+}
+static void harness_free(void *p) { free(p); }
+#define free(p) free_g(p)                    /* every free() in the extracted code below */
+static void *CALLOC_g(size_t n, size_t sz) { if (nondet_bool()) return NULL; return ledger_add(calloc(n, sz)); }
+/* libc realloc (assumption): NULL, or a fresh block with the old elements and the old block released.  Sizes are those this unit can
+   reach (one or two pointers); anything else is a failed obligation */
+static void *REALLOC_g(void *p, size_t n)
+{
+    if (nondet_bool()) return NULL;
+    void **q;
+    if (n == sizeof(void *)) { __CPROVER_assert(p == NULL, "bound: a rope grows from empty to one entry"); __CPROVER_assume(p == NULL); q = malloc(sizeof(void *)); }
+    else if (n == 2 * sizeof(void *)) { q = malloc(2 * sizeof(void *)); }
+    else { __CPROVER_assert(0, "bound: a rope holds at most two blocks in this unit"); __CPROVER_assume(0); return NULL; }
+    __CPROVER_assume(q);
+    ledger_add(q);
+    if (p) { q[0] = ((void **)p)[0]; free_g(p); }
+    return q;
+}
+/* C++ defines p - p == 0 for the null pointer (an empty Vector has m_first == m_last == m_end == 0); C, and the verifier, do not */
+#define PDIFF(a, b) ((a) == (b) ? (ptrdiff_t)0 : (a) - (b))
+static ptrdiff_t distance(void **first, void **last) { return PDIFF(last, first); }
+
+/*@extract {'if':'DTOR', 'file':'src/inc/Main.h', 'sig': r'bool checked_mul\(const size_t a, const size_t b, size_t & t\)\s*(?=\{\s*return __builtin_mul_overflow)',
+            'emit':'static bool checked_mul(const size_t a, const size_t b, size_t *t)', 'refs':['t']}@*/
+/*@extract {'if':'DTOR', 'file':'src/inc/Main.h', 'sig': r'template <typename T> T \* grzeroalloc\(size_t n\)', 'emit':'static Slot *grzeroalloc_Slot(size_t n)', 'casts': True,
+            'subs':[[r'\bT\b', 'Slot', 0], [r'\bcalloc\(', 'CALLOC_g(', 0]]}@*/
+/*@extract {'if':'DTOR', 'file':'src/inc/Main.h', 'sig': r'template <typename T> T \* grzeroalloc\(size_t n\)', 'emit':'static int16 *grzeroalloc_int16(size_t n)', 'casts': True,
+            'subs':[[r'\bT\b', 'int16', 0], [r'\bcalloc\(', 'CALLOC_g(', 0]]}@*/
+/*@extract {'if':'DTOR', 'file':'src/inc/Main.h', 'sig': r'template <typename T> T \* grzeroalloc\(size_t n\)', 'emit':'static byte *grzeroalloc_byte(size_t n)', 'casts': True,
+            'subs':[[r'\bT\b', 'byte', 0], [r'\bcalloc\(', 'CALLOC_g(', 0]]}@*/
+
+/*@extract {'if':'DTOR', 'file':'src/inc/List.h', 'scope': r'class Vector\s*\{', 'sig': r'(?<![~\w])Vector\(\)', 'ctor': True, 'emit':'static void Vector_ctor(VecP *self)', 'self':['m_first','m_last','m_end']}@*/
+/*@extract {'if':'DTOR', 'file':'src/inc/List.h', 'scope': r'class Vector\s*\{', 'sig': r'(?<!_)iterator\s+begin\(\)', 'emit':'static void **Vector_begin(VecP *self)', 'self':['m_first']}@*/
+/*@extract {'if':'DTOR', 'file':'src/inc/List.h', 'scope': r'class Vector\s*\{', 'sig': r'(?<!_)iterator\s+end\(\)', 'emit':'static void **Vector_end(VecP *self)', 'self':['m_last']}@*/
+/*@extract {'if':'DTOR', 'file':'src/inc/List.h', 'scope': r'class Vector\s*\{', 'sig': r'size_t\s+size\(\) const', 'emit':'static size_t Vector_size(const VecP *self)', 'subs':[[r'm_last - m_first', 'PDIFF(m_last, m_first)', 0]], 'self':['m_first','m_last','m_end']}@*/
+/*@extract {'if':'DTOR', 'file':'src/inc/List.h', 'scope': r'class Vector\s*\{', 'sig': r'size_t\s+capacity\(\) const', 'emit':'static size_t Vector_capacity(const VecP *self)', 'subs':[[r'm_end - m_first', 'PDIFF(m_end, m_first)', 0]], 'self':['m_first','m_last','m_end']}@*/
+/*@extract {'if':'DTOR', 'file':'src/inc/List.h', 'sig': r'void Vector<T>::reserve\(size_t n\)', 'emit':'static void Vector_reserve(VecP *self, size_t n)', 'casts': True,
+            'subs':[[r'capacity\(\)', 'Vector_capacity(self)', 0], [r'size\(\)', 'Vector_size(self)', 0], [r'std::abort\(\)', 'abort()', 0],
+                    [r'checked_mul\(n,sizeof\(T\), requested\)', 'checked_mul(n, sizeof(T), &requested)', 0], [r'\bT\b', 'vp_t', 0], [r'\brealloc\(', 'REALLOC_g(', 0]], 'self':['m_first','m_last','m_end']}@*/
+/*@extract {'if':'DTOR', 'file':'src/inc/List.h', 'scope': r'class Vector\s*\{', 'sig': r'void\s+push_back\(const T &v\)', 'emit':'static void Vector_push_back(VecP *self, void *v)',
+            'subs':[[r'\breserve\(size\(\)\+1\)', 'Vector_reserve(self, Vector_size(self)+1)', 0], [r'new \(m_last\+\+\) T\(v\);', '*m_last++ = v;', 0]], 'self':['m_last','m_end']}@*/
+/*@extract {'if':'DTOR', 'file':'src/inc/List.h', 'sig': r'typename Vector<T>::iterator Vector<T>::erase\(iterator first, iterator last\)', 'emit':'static void **Vector_erase(VecP *self, void **first, void **last)',
+            'subs':[[r'for \(iterator e = first;', 'for (void **e = first;', 0], [r'e->~T\(\);', '(void)e;', 0], [r'distance\(last,end\(\)\)', 'distance(last, self->m_last)', 0],
+                    [r'\bT\b', 'vp_t', 0]], 'self':['m_first','m_last','m_end']}@*/
+/*@extract {'if':'DTOR', 'file':'src/inc/List.h', 'scope': r'class Vector\s*\{', 'sig': r'void\s+clear\(\)', 'emit':'static void Vector_clear(VecP *self)',
+            'subs':[[r'erase\(begin\(\), end\(\)\)', 'Vector_erase(self, Vector_begin(self), Vector_end(self))', 0]]}@*/
+/*@extract {'if':'DTOR', 'file':'src/inc/List.h', 'scope': r'class Vector\s*\{', 'sig': r'~Vector\(\)', 'emit':'static void Vector_dtor(VecP *self)',
+            'subs':[[r'clear\(\)', 'Vector_clear(self)', 0]], 'self':['m_first','m_last','m_end']}@*/
+#define M_begin_0 Vector_begin
+#define M_end_0 Vector_end
+#define M_push_back_1 Vector_push_back
+
+/*@extract {'if':'DTOR', 'file':'src/inc/Slot.h', 'scope': r'struct SlotJustify\s*\{', 'sig': r'static size_t size_of\(size_t levels\)', 'emit':'static size_t SlotJustify_size_of(size_t levels)'}@*/
+/*@extract {'if':'DTOR', 'file':'src/Segment.cpp', 'sig': r'Slot \*Segment::newSlot\(\)', 'emit':'Slot *Segment_newSlot(Segment *self)',
+   'subs':[[r'grzeroalloc<Slot>\(', 'grzeroalloc_Slot(', 0], [r'grzeroalloc<int16>\(', 'grzeroalloc_int16(', 0],
+           [r'::new \(newSlots \+ i\) Slot\(', 'Slot_ctor(newSlots + i, ', 0], [r'\bm_slots\b', 'g_ext.m_slots', 0], [r'\bm_userAttrs\b', 'g_ext.m_userAttrs', 0]],
+   'methods':['next','numUser','push_back'], 'self':['m_freeSlots','m_numGlyphs','m_numCharinfo','m_silf','m_face','m_bufSize']}@*/
+/*@extract {'if':'DTOR', 'file':'src/Segment.cpp', 'sig': r'SlotJustify \*Segment::newJustify\(\)', 'emit':'SlotJustify *Segment_newJustify(Segment *self)', 'casts': True,
+   'subs':[[r'SlotJustify::size_of\(', 'SlotJustify_size_of(', 0], [r'grzeroalloc<byte>\(', 'grzeroalloc_byte(', 0],
+           [r'\bm_justifies\b', 'g_ext.m_justifies', 0], [r'\bm_freeJustifies\b', 'g_ext.m_freeJustifies', 0]],
+   'methods':['numJustLevels','push_back'], 'self':['m_silf','m_bufSize']}@*/
+/* `delete[] m_charinfo`: CharInfo has a trivial destructor (no array cookie); operator delete[] of CLASS_NEW_DELETE is free(p) */
+static void DELETE_ARRAY_CharInfo(CharInfo *p) { free(p); }
+/*@extract {'if':'DTOR', 'file':'src/Segment.cpp', 'sig': r'Segment::~Segment\(\)', 'emit':'void Segment_dtor(Segment *self)',
+   'subs':[[r'(SlotRope|AttributeRope|JustifyRope)::iterator', 'void **', 0], [r'delete\[\] m_charinfo;', 'DELETE_ARRAY_CharInfo(m_charinfo);', 0],
+           [r'\bm_slots\b', 'g_ext.m_slots', 0], [r'\bm_userAttrs\b', 'g_ext.m_userAttrs', 0], [r'\bm_justifies\b', 'g_ext.m_justifies', 0], [r'\bm_collisions\b', 'g_ext.m_collisions', 0]],
+   'methods':['begin','end'], 'self':['m_charinfo']}@*/
+/* `delete p` on a Segment (spec model of the delete-expression): destructor body, members destroyed in reverse order of declaration
+   (m_feats is not modelled), then operator delete of CLASS_NEW_DELETE = free(p); deleting the null pointer does nothing */
+static void DELETE_Segment(Segment *p)
+{
+    if (!p) return;
+    Segment_dtor(p);
+    Vector_dtor(&g_ext.m_justifies); Vector_dtor(&g_ext.m_userAttrs); Vector_dtor(&g_ext.m_slots);
+    free(p);
+}
+/*@extract {'if':'DTOR', 'file':'src/gr_segment.cpp', 'sig': r'void gr_seg_destroy\(gr_segment\* p\)', 'emit':'void gr_seg_destroy(gr_segment *p)',
+   'subs':[[r'delete static_cast<Segment\*>\(p\);', 'DELETE_Segment(p);', 0]]}@*/
+
+#define CHK(k) if ((k) < g_nblk) __CPROVER_assert(g_freecnt[(k)] == 1, "every block the segment obtained is freed exactly once");
+void h_destroy(void)
+{
+    Silf *sf = malloc(sizeof(Silf)); Face *fc = malloc(sizeof(Face)); __CPROVER_assume(sf && fc);        /* not owned by the segment */
+    sf->m_aUser = NUSER; sf->m_numJusts = 1;
+    g_nblk = 0;
+    Segment *sg = ledger_add(malloc(sizeof(Segment))); __CPROVER_assume(sg);                                /* new Segment(..): operator new is gralloc<byte>(size) */
+    Vector_ctor(&g_ext.m_slots); Vector_ctor(&g_ext.m_userAttrs); Vector_ctor(&g_ext.m_justifies);
+    sg->m_freeSlots = (Slot *)0; g_ext.m_freeJustifies = (SlotJustify *)0;
+    sg->m_silf = sf; sg->m_face = fc; sg->m_first = sg->m_last = (Slot *)0;
+    sg->m_bufSize = BUF;
+    sg->m_charinfo = ledger_add(malloc(2 * sizeof(CharInfo))); __CPROVER_assume(sg->m_charinfo); sg->m_numCharinfo = 2;    /* new CharInfo[numchars] */
+    g_ext.m_collisions = nondet_bool() ? (SlotCollision *)ledger_add(malloc(16)) : (SlotCollision *)0;       /* Segment::initCollisions ran or not */
+    int w_slots = nondet_int(), w_justs = nondet_int();
+    __CPROVER_assume(0 <= w_slots && w_slots <= KS && 0 <= w_justs && w_justs <= KJ);
+    int got = 0;
+    for (int k = 0; k < KS; ++k) if (k < w_slots) { Slot *s = Segment_newSlot(sg); if (s) ++got; }
+    for (int k = 0; k < KJ; ++k) if (k < w_justs) { SlotJustify *j = Segment_newJustify(sg); (void)j; }
+    /* the ropes hold what the calls kept: one entry per block, slot and attribute ropes in step */
+    __CPROVER_assert(Vector_size(&g_ext.m_slots) == Vector_size(&g_ext.m_userAttrs), "newSlot: a slot block and its attribute block are recorded together");
+    __CPROVER_assert(got == 0 || Vector_size(&g_ext.m_slots) >= 1, "newSlot: a handed-out slot lives in a recorded block");
+    gr_seg_destroy(sg);
+    CHK(0) CHK(1) CHK(2) CHK(3) CHK(4) CHK(5) CHK(6) CHK(7) CHK(8) CHK(9) CHK(10) CHK(11) CHK(12) CHK(13) CHK(14) CHK(15)
+    harness_free(sf); harness_free(fc);
     CANARY();
 }
+#undef free
 #endif
 
 /* ================================================================== (d) observation points */
